@@ -104,8 +104,10 @@ Proof.
   destruct cap; injection E as <- _; [now apply aupper_ascii|assumption].
 Qed.
 
+(* serde's own camelCase fails (None: its byte slice panics inside the derive macro) only when the PascalCase
+   form is empty; typeshare then returns the empty name (before the /repo fix of to_camel_case it panicked too) *)
 Definition as_outcome (o : option str) : outcome str :=
-  match o with Some x => Ok x | None => Panic "rename.rs:22" end.
+  match o with Some x => Ok x | None => Ok [] end.
 
 Lemma camel_field s : forallb snake_char s = true ->
   to_camel_case s = as_outcome (lower_first (sd_pascal_go true s)).
@@ -113,7 +115,7 @@ Proof.
   intros H. unfold to_camel_case, to_pascal_case. rewrite pascal_go_field by assumption.
   destruct (sd_pascal_go true s) as [|c r] eqn:E; cbn [lower_first as_outcome]; [reflexivity|].
   pose proof (sd_pascal_head_ascii _ _ _ _ H E) as Hc.
-  apply N.ltb_lt in Hc. now rewrite Hc.
+  apply N.ltb_lt in Hc. rewrite Hc. reflexivity.
 Qed.
 
 Lemma rule_from_str_cases rs r : rule_from_str rs = Some r ->
